@@ -146,7 +146,7 @@ def run(ctx):
         overlapping = any(a["p"] != b["p"] and a["inv"] < b["ret"] and b["inv"] < a["ret"] for a in ops for b in ops)
         if overlapping:
             nontriv += 1
-        replay = {"kind": "schedule", "family": fam["name"], "setup": fam["setup"], "participants": K.part_lines(fam), "schedule": K.schedule_text(cr),
+        replay = {"kind": "schedule", "family": fam["name"], "setup": fam["setup"], "participants": K.part_lines(fam), "schedule": K.schedule_text(cr), "raw_schedule": K.schedule_raw(cr),
                   "history": [{k: o[k] for k in ("p", "step", "kind", "arg", "cls", "obs", "inv", "ret")} for o in ops]}
         errs = [o for o in ops if o["cls"].startswith("Err") or o["cls"] == "Panic" or o["cls"] == "?"]
         if errs:
